@@ -51,6 +51,11 @@ func handleLIndex(params internal.HandlerFuncParams) ([]byte, error) {
 		return nil, err
 	}
 
+	index, err := strconv.Atoi(params.Command[2])
+	if err != nil {
+		return nil, errors.New("index must be an integer")
+	}
+
 	key := keys.ReadKeys[0]
 	keyExists := params.KeysExist(params.Context, keys.ReadKeys)[key]
 	if !keyExists {
@@ -62,10 +67,6 @@ func handleLIndex(params internal.HandlerFuncParams) ([]byte, error) {
 		return nil, errors.New("LINDEX command on non-list item")
 	}
 
-	index, err := strconv.Atoi(params.Command[2])
-	if err != nil {
-		return nil, errors.New("index must be an integer")
-	}
 	// If index is less than 0, calculate index from the end of the list
 	if index < 0 {
 		index = len(list) + index
@@ -84,6 +85,15 @@ func handleLRange(params internal.HandlerFuncParams) ([]byte, error) {
 		return nil, err
 	}
 
+	start, err := strconv.Atoi(params.Command[2])
+	if err != nil {
+		return nil, fmt.Errorf("start index must be an integer")
+	}
+	end, err := strconv.Atoi(params.Command[3])
+	if err != nil {
+		return nil, fmt.Errorf("end index must be an integer")
+	}
+
 	key := keys.ReadKeys[0]
 	keyExists := params.KeysExist(params.Context, keys.ReadKeys)[key]
 	if !keyExists {
@@ -95,10 +105,6 @@ func handleLRange(params internal.HandlerFuncParams) ([]byte, error) {
 		return nil, errors.New("LRANGE command on non-list item")
 	}
 
-	start, err := strconv.Atoi(params.Command[2])
-	if err != nil {
-		return nil, fmt.Errorf("start index must be an integer")
-	}
 	// If start is < 0, calculate it from the end of the list
 	if start < 0 {
 		start = len(list) + start
@@ -108,10 +114,6 @@ func handleLRange(params internal.HandlerFuncParams) ([]byte, error) {
 		start = 0
 	}
 
-	end, err := strconv.Atoi(params.Command[3])
-	if err != nil {
-		return nil, fmt.Errorf("end index must be an integer")
-	}
 	// If end is < 0, calculate it from the end of the list
 	if end < 0 {
 		end = len(list) + end
@@ -178,12 +180,6 @@ func handleLTrim(params internal.HandlerFuncParams) ([]byte, error) {
 		return nil, err
 	}
 
-	key := keys.WriteKeys[0]
-	keyExists := params.KeysExist(params.Context, keys.WriteKeys)[key]
-	if !keyExists {
-		return []byte(constants.OkResponse), nil
-	}
-
 	start, err := strconv.Atoi(params.Command[2])
 	if err != nil {
 		return nil, fmt.Errorf("start index must be an integer")
@@ -191,6 +187,12 @@ func handleLTrim(params internal.HandlerFuncParams) ([]byte, error) {
 	end, err := strconv.Atoi(params.Command[3])
 	if err != nil {
 		return nil, fmt.Errorf("end index must be an integer")
+	}
+
+	key := keys.WriteKeys[0]
+	keyExists := params.KeysExist(params.Context, keys.WriteKeys)[key]
+	if !keyExists {
+		return []byte(constants.OkResponse), nil
 	}
 
 	list, ok := params.GetValues(params.Context, []string{key})[key].([]string)
@@ -472,17 +474,6 @@ func handlePop(params internal.HandlerFuncParams) ([]byte, error) {
 		return nil, err
 	}
 
-	key := keys.WriteKeys[0]
-	keyExists := params.KeysExist(params.Context, keys.WriteKeys)[key]
-	if !keyExists {
-		return []byte("$-1\r\n"), nil
-	}
-
-	list, ok := params.GetValues(params.Context, []string{key})[key].([]string)
-	if !ok {
-		return nil, fmt.Errorf("%s command on non-list item", strings.ToUpper(params.Command[0]))
-	}
-
 	withCount := false
 	count := 1
 	// Parse count
@@ -496,10 +487,22 @@ func handlePop(params internal.HandlerFuncParams) ([]byte, error) {
 		if count < 0 {
 			return nil, fmt.Errorf("count must be a positive integer")
 		}
-		// If count is greater than the length of the list, set count to the length of the list.
-		if count > len(list) {
-			count = len(list)
-		}
+	}
+
+	key := keys.WriteKeys[0]
+	keyExists := params.KeysExist(params.Context, keys.WriteKeys)[key]
+	if !keyExists {
+		return []byte("$-1\r\n"), nil
+	}
+
+	list, ok := params.GetValues(params.Context, []string{key})[key].([]string)
+	if !ok {
+		return nil, fmt.Errorf("%s command on non-list item", strings.ToUpper(params.Command[0]))
+	}
+
+	// If count is greater than the length of the list, set count to the length of the list.
+	if count > len(list) {
+		count = len(list)
 	}
 
 	// Return nil if list is empty
